@@ -440,10 +440,26 @@ func runC14(r *Run) {
 	if v := w.View(ok4, "msgServer.UpdateParams"); v != nil {
 		okP := false
 		for _, c := range v.CallsNamed("AddCache") {
-			if len(c.Args) == 1 && strings.Contains(exprString(c.Args[0]), "ItemP(") && !v.nestedConditionally(c, v.Decl.Body) {
+			if len(c.Args) == 1 && strings.Contains(exprString(c.Args[0]), "ItemP(") {
 				for _, sc := range v.CallsNamed("SetParams") {
 					if sc.Pos() < c.Pos() && sameExpr(sc.Args[len(sc.Args)-1], c.Args[0].(*ast.CallExpr).Args[0]) {
-						okP = true
+						// between the store write and the log: no condition but "this is not CheckTx/simulate"
+						okCond := true
+						for _, f := range v.FactsAt(c, false) {
+							if f.At == nil || f.At.Pos() < sc.End() {
+								continue
+							}
+							if o := v.outcome(f); o != nil && o.Callee.Name() == "IsCheckTx" && !o.Success {
+								continue
+							}
+							if v.isExpandedAlias(f) {
+								continue
+							}
+							okCond = false
+						}
+						if okCond {
+							okP = true
+						}
 					}
 				}
 			}
